@@ -8,6 +8,10 @@ NOTES = ("Driver: /verif/verif (python3, stdlib). Every check rebuilds harness/c
          "Known findings: /verif/KNOWN_FINDINGS.txt (read-only at run time). VERIF_SEED selects the rapid seeds; sweeps ignore it.")
 
 CLAIMED = {
+ "C06": dict(
+    technique="property-based testing (rapid): one generated value of any encodable kind per case; size oracle and recursive container-embedding oracle (children's stand-alone encodings found intact, in order, zero padding only)",
+    level_text="For a generated value of any of the ~125 encodable kinds and everything nested in it: Len() before and after encoding equals the number of bytes produced, and for the 28 container kinds the bytes after the container's header are exactly the stand-alone encodings of its children in order followed by at most 7 zero bytes. DHCP (options) and LLDP (TLVs) are checked through their Read side.",
+    level_note="Container header sizes/child order come from the wire layouts, not from the library. Conntrack's nested actions (unexported, no accessor) are covered by C02/C03 only."),
  "C09": dict(
     technique="property-based testing (rapid) with dual construction against an independent RFC-layout packet model + exhaustive sweeps of every packed 8/16-bit group",
     level_text="Header values of every kind built through the API must encode to exactly the bytes the RFC layouts give for the same arguments, report that size, decode back to an observably equal value (dynamic payload types by ethertype / protocol / next-header chain included) and re-encode identically; frames are also taken bytes-first (incl. priority tags). Every value of VLAN TCI, IPv4 version/IHL, DSCP/ECN, flags/fragment offset, IPv6 class, flow label (all 2^20 in thorough), TCP offset/flags, fragment offset/M and IGMPv3 S/QRV is enumerated.",
@@ -69,4 +73,4 @@ for k in CLAIMED:
     ENGINES[0]["serves_properties"].append(k)
 
 NOT_APPLICABLE = {p: "check under construction in this round (design in DESIGN.md section 10); not claimed until it runs clean on the unchanged tree"
-                  for p in ["C06","C10","C11","C12","C13"]}
+                  for p in ["C10","C11","C12","C13"]}
